@@ -70,6 +70,17 @@ def generate(seed, tier):
         n = rng.choice([2, 2, 3])
         sub = rng.randrange(1 << 40)
         sess = [sl.gen_session(random.Random(sub), tier, i) for i in range(n)]
+    elif rng.random() < 0.04:
+        # two (three) conversions of gzip sources that do not fit an I/O buffer, the files
+        # having the same name in different directories, advanced alternately
+        n = rng.choice([2, 2, 3])
+        sess = []
+        for i in range(n):
+            base = "/sim/w/s%d" % i
+            s_ = sl.gen_convert(rng, tier, base, cli=False, big=(i < 2))
+            s_["base"] = base
+            s_.setdefault("on_error", "abort")
+            sess.append(s_)
     else:
         sess = [sl.gen_session(rng, tier, i) for i in range(n)]
     faults = []
